@@ -69,6 +69,8 @@ def judge_group(cfg, parent_idx, parent_obs, kids):
                         f"{mk}: entry {n} is {last_p} for the truncated sample but {same_c} inside a longer one "
                         f"(sum exceeds N t: {over})"))
             break
+    if any(o.get("stateful") for _, o in kids):
+        out.append((f"C05|{mk}|instance-remembers-earlier-sample", f"{mk}: evaluating the same sample twice on one test object gives different p-values: the history depends on draws of an earlier evaluation"))
     if any(o.get("mutated") for _, o in kids):
         out.append((f"C05|{mk}|input-mutated", f"{mk}: test() changed the sample array it was given, so the next evaluation of the same draws sees other values"))
     # estimators / bets: the whole vector of the child is determined by the parent prefix
